@@ -207,6 +207,27 @@ def check_fact(run, fns, which, n, Pm, items, tag, Texp=None, Dexp=None):
             struct, want, items, tag)
     rec = np.einsum("nij,njk,nlk->nil", Tm, Dm, Tm)
     compare(run, f"{which}/reconstruct/{cell}", f"{name} D {name}^T differs from P", vecs(rec), vecs(Pm), items, tag)
+    # the same matrices handed over with their STRUCTURAL zeros (sparse SX, as a block-structured covariance is in
+    # practice): a shortcut keyed on the input pattern must still account for the fill-in of the elimination
+    from cyecca import util
+    fn = util.ldl_symmetric_decomposition if which == "ldl" else util.udu_symmetric_decomposition
+    done = 0
+    for k in range(len(items)):
+        Pk = np.asarray(Pm[k], float)
+        if done >= 40 or not np.any((Pk == 0) & (off > 0)):
+            continue
+        done += 1
+        try:
+            Ts, Ds = fn(ca.SX(ca.sparsify(ca.DM(Pk))))
+            Ts = np.array(ca.evalf(ca.densify(Ts))); Ds = np.array(ca.evalf(ca.densify(Ds)))
+        except Exception as ex:     # noqa
+            run.violation(f"{which}/sparse_input/raises/{cell}", f"{type(ex).__name__}: {ex}", {tag: items[k]})
+            continue
+        run.count("sparse_pattern_evaluations")
+        rs = Ts @ Ds @ Ts.T
+        if not (np.all(np.isfinite(rs)) and np.max(np.abs(rs - Pk)) <= 1e-9 * max(1.0, np.max(np.abs(Pk)))):
+            run.violation(f"{which}/reconstruct_sparse_input/{cell}", f"{name} D {name}^T differs from P when P is passed with its structural zeros",
+                          {tag: items[k], "got": rs.tolist()})
     if Texp is not None:
         compare(run, f"{which}/{name}/{cell}", f"{name} differs from the exact unit-triangular factor", T, vecs(Texp), items, tag)
         compare(run, f"{which}/D/{cell}", "D differs from the exact pivots", np.einsum("nii->in", Dm), Dexp.T, items, tag)
@@ -403,6 +424,18 @@ def gen_resid(seed, tier):
             P = A @ A.T + np.diag(rng.integers(1, 4, n))
             out.append({"kind": "ldl", "n": n, "P": P.tolist()})
             out.append({"kind": "udu", "n": n, "P": P.tolist()})
+        # structured SPD: "arrow" (states uncorrelated with each other, all correlated with the last / first one) and
+        # block-diagonal-plus-common-bias -- the patterns whose elimination creates fill-in
+        n = int(rng.choice([3, 4, 5, 6]))
+        d = rng.integers(3, 9, n) + n
+        P = np.diag(d)
+        j = int(rng.choice([0, n - 1]))
+        col = rng.integers(-2, 3, n); col[col == 0] = 1
+        P[j, :] = col; P[:, j] = col; P[j, j] = d[j] + int(np.sum(np.abs(col)))
+        if n >= 5:
+            P[1, 2] = P[2, 1] = 1
+        out.append({"kind": "ldl", "n": n, "P": P.tolist()})
+        out.append({"kind": "udu", "n": n, "P": P.tolist()})
         for n in (4, 6):
             k = int(rng.choice([0, 2, n]))
             A = rng.integers(-1, 3, (n, k))
